@@ -185,6 +185,10 @@ class REINFORCE(RL4COLitModule):
             log.warning("Setting strict=False for loading model from checkpoint.")
             strict = False
 
+        # The checkpoint holds pickled objects (environment, policy) in its hyper-parameters: it cannot be
+        # read with torch's weights-only unpickler, which is the default of recent torch versions
+        kwargs.setdefault("weights_only", False)
+
         # Do not use strict
         loaded = _load_from_checkpoint(
             cls,
@@ -201,7 +205,9 @@ class REINFORCE(RL4COLitModule):
             loaded.setup()
             loaded.post_setup_hook()
             # load baseline state dict
-            state_dict = torch.load(checkpoint_path, map_location=map_location)["state_dict"]
+            state_dict = torch.load(
+                checkpoint_path, map_location=map_location, weights_only=False
+            )["state_dict"]
             # get only baseline parameters
             state_dict = {k: v for k, v in state_dict.items() if "baseline" in k}
             state_dict = {k.replace("baseline.", "", 1): v for k, v in state_dict.items()}
